@@ -10,7 +10,7 @@ from ..cfg import CFG, EXIT
 from ..core import Ctx
 from ..flow import AV
 from ..model import AnalysisError, ClassInfo, FuncInfo, dotted, kwarg, norm, walk_no_nested
-from .common import assigned_value, bound_args, enclosing, pargs, pnorm, prog, resolve_local
+from .common import assigned_value, bound_args, enclosing, expand_locals, flat_subscript, pargs, pnorm, prog, resolve_local, view_env
 from .kernels import (concrete_dissimilarities, extract_d, extract_d_mat, identify, spec_formula, swap12)
 
 CAPTURED = {"delta_empty", "_matrix", "alpha", "beta", "positional_dissim", "categorical_dissim"}
@@ -24,21 +24,17 @@ def array_layout(ctx: Ctx, rule: str) -> None:
     for qn, arr_kind in (("AbstractDissimilarity._build_arrays_continuum", 2), ("AbstractDissimilarity._build_arrays_alignment", 3)):
         f = ctx.fn(qn, rule)
         got: Dict[int, ast.AST] = {}
+        venv = view_env(f.node)
         for n in walk_no_nested(f.node):
             if isinstance(n, ast.Assign) and len(n.targets) == 1 and isinstance(n.targets[0], ast.Subscript):
-                t = n.targets[0]
-                # arr[i][k] = v   or   arr[i, a, k] = v
-                k = None
-                if isinstance(t.slice, ast.Constant) and isinstance(t.slice.value, int) and isinstance(t.value, ast.Subscript):
-                    k = t.slice.value
-                elif isinstance(t.slice, ast.Tuple) and t.slice.elts and isinstance(t.slice.elts[-1], ast.Constant) \
-                        and isinstance(t.slice.elts[-1].value, int) and len(t.slice.elts) == arr_kind:
-                    k = t.slice.elts[-1].value
-                if k is not None:
-                    got[k] = n
+                # arr[i][k] = v  /  arr[i, a, k] = v  /  row = arr[i]; row[k] = v  /  for row, unit in zip(arr, units): row[k] = v
+                fl = flat_subscript(n.targets[0], venv)
+                if fl is not None and len(fl[1]) == arr_kind and fl[1][-1].isdigit():
+                    got[int(fl[1][-1])] = n
         for k in (0, 1, 2):
             n = got.get(k)
-            ok = n is not None and isinstance(n.value, ast.Attribute) and norm(n.value).endswith("." + want[k])
+            v = expand_locals(f.node, n.value) if n is not None else None
+            ok = n is not None and isinstance(v, ast.Attribute) and norm(v).endswith("." + want[k])
             ctx.check(ok, rule, f, n, f"array field {k} holds unit.{want[k]}",
                       bad_detail=f"array field {k} does not hold unit.{want[k]}: the kernels read a different quantity than d()",
                       construct=f"field {k}", key=f"layout{k}")
